@@ -210,3 +210,31 @@ PROPS["C19"] = {
         plain_unit("replay", "^TestC19_Replay$", pkg="server", replay=True),
     ],
 }
+
+# ------------------------------------------------------------------------------------------------
+# Engine P (persistence): C07
+PROPS["C07"] = {
+    "level": "exploration",
+    "rule": ("rapid-generated histories (engine A grammar restricted to Timeout 0; expiries in seconds/minutes/unlimited chosen at least 15 s away "
+             "from the restart instant; persist-immediately / never-persist / percent aof flags on 50% of the requests; value SET/PUSH/INCR attached when a "
+             "hold is created; unlocks incl. unlock-first/cancel; 1-3 s clock ticks; admin REWRITEAOF rotations+compactions at drawn points; 2 databases; "
+             "aof_file_buffer_size in {64,128,256,4096}, db_lock_aof_time in {0,1}) run on instance 1 whose clock lags the wall clock by 15/45/130 s "
+             "(= an outage of that length); at a quiescent point (persistence queue drained, file flushed) the directory is copied, a fresh leader is "
+             "started on the copy (wall clock) and its in-package snapshot must contain exactly the persisted, still-live holds of instance 1 (same key, "
+             "LockId, depth, Count, Rcount, value of keys whose holders all survive, deadline within one unit + 1 s, never later); must-persist rule "
+             "(persist-immediately flag, or older than the delay) and never-persist rule checked on instance 1; then a second restart on what the first "
+             "one left behind (it compacts at start-up) must recover the same again. Non-trivial: >=2 log files or a value blob, a hold released before "
+             "the restart, and >=1 hold restored. Distinct = FNV-64 of the operation list + parameters."),
+    "assumptions": [
+        "instance 1 runs on a harness-driven clock that lags the wall clock (hook H1); recovery runs on the wall clock as in production",
+        "holds whose deadline lies within 6 s (+ one unit) of the restart instant may or may not be restored",
+        "value operations on re-locks, updates and unlocks are not generated here (their persistence is not compared; C15 covers their semantics)",
+        "while the listed known findings are open a persisted history never re-locks or updates a live hold and never creates a hold with the update flag (excluded by construction, counted in evidence)",
+        "size-triggered compaction (a goroutine racing the workload) is not generated here",
+    ],
+    "units": [
+        rapid_unit("restart", "^TestC07_Restart$", quick={"checks": 1600, "shards": 16, "timeout_s": 420, "shrinktime": "45s"},
+                   thorough={"checks": 60000, "shards": 16, "timeout_s": 3000, "shrinktime": "90s"}),
+        plain_unit("replay", "^TestC07_Replay$", replay=True),
+    ],
+}
